@@ -207,6 +207,21 @@ func (s *Session) ModuleState(moduleName string) (any, bool) {
 	return state, ok
 }
 
+// LoadOrStoreModuleState returns the state registered for the given module if
+// there is one. Otherwise, it registers and returns the given state. Checking
+// and registering are done in one critical section, so that participants that
+// join concurrently end up sharing a single state.
+func (s *Session) LoadOrStoreModuleState(moduleName string, state any) any {
+	s.moduleMutex.Lock()
+	defer s.moduleMutex.Unlock()
+
+	if registered, ok := s.moduleStates[moduleName]; ok {
+		return registered
+	}
+	s.moduleStates[moduleName] = state
+	return state
+}
+
 func (s *Session) HandleFrame(h func()) (cancel func()) {
 	s.frameMutex.Lock()
 	defer s.frameMutex.Unlock()
